@@ -146,6 +146,12 @@ func (e *ordEval) evalInt(x ast.Expr) int64 {
 
 func (e *ordEval) evalBool(x ast.Expr) bool {
 	x = ast.Unparen(x)
+	if e.inl != nil {
+		// predicate helpers (sameType(this, o)) stand for the test they return
+		if _, isCall := x.(*ast.CallExpr); isCall {
+			x = ast.Unparen(e.inl.Expand(x))
+		}
+	}
 	if b, ok := e.bools[stripSpaces(types.ExprString(x))]; ok {
 		return b
 	}
